@@ -30,6 +30,10 @@ pub struct Faults {
     pub mismatch: bool,
     /// other interpolators are built over the same storage while this one is being queried
     pub sibling: bool,
+    /// a stub-strategy callback calls back into the interpolator it was handed (re-entrancy)
+    pub reenter: bool,
+    /// an element operation of a user-defined numeric type panics in the middle of a call
+    pub elem_panic: bool,
 }
 
 impl Faults {
@@ -46,6 +50,8 @@ impl Faults {
                 badidx: false,
                 mismatch: false,
                 sibling: false,
+                reenter: false, // enumerated by the engine (nest@k variants)
+                elem_panic: false,
             },
             _ => Faults {
                 oob: r.chance(3, 4),
@@ -58,6 +64,8 @@ impl Faults {
                 badidx: r.chance(1, 4),
                 mismatch: r.chance(1, 4),
                 sibling: r.chance(1, 2),
+                reenter: mode == Mode::C17 && r.chance(1, 2),
+                elem_panic: mode == Mode::C17 && r.chance(1, 2),
             },
         }
     }
@@ -577,6 +585,39 @@ fn gen_sibling(r: &mut Rng, sc: &SlotCtx) -> Call {
     Call::Sibling { strat, x, y: Fb(0.0) }
 }
 
+/// `gen_call` plus the fix-ups that depend on the slot's static types
+fn gen_fixed_call(r: &mut Rng, sc: &SlotCtx, cfg: &SlotCfg, faults: &Faults, mode: Mode) -> Call {
+    let mut call = gen_call(r, sc, faults, mode);
+    // buffers of dynamic output type may have a wrong rank only if the data side is dynamic too
+    if let Call::ArrayInto { q, buf } = &mut call {
+        let dynamic_out = q.ty == QTy::QDyn || cfg.dimty == DimTy::IxDyn;
+        let exact_nd = q.shape.len() + sc.trailing.len();
+        if !dynamic_out && buf.shape.len() != exact_nd {
+            let mut s = q.shape.clone();
+            s.extend_from_slice(&sc.trailing);
+            *buf = BufSpec { shape: s, lay: Lay::C, exact: true };
+        }
+    }
+    if mode == Mode::C18 {
+        // correctly shaped buffers of every memory layout
+        if let Call::ArrayInto { buf, .. } | Call::InterpInto { buf, .. } = &mut call {
+            buf.lay = gen_lay(r);
+        }
+    }
+    call
+}
+
+fn gen_nest(r: &mut Rng, sc: &SlotCtx, cfg: &SlotCfg, faults: &Faults, mode: Mode) -> Act {
+    Act::Nest { call: Box::new(gen_fixed_call(r, sc, cfg, faults, mode)), write_first: r.chance(1, 2) }
+}
+
+/// a re-entrant call for a callback of an operation on `cfg` (C18 fault enumeration)
+pub fn gen_nest_for(r: &mut Rng, cfg: &SlotCfg, mode: Mode) -> Act {
+    let faults = Faults { oob: false, badbuf: false, strat_err: false, strat_panic: false, crash: false, stall: false, cow: false, badidx: false, mismatch: false, sibling: false, reenter: true, elem_panic: false };
+    let sc = slot_ctx(r, cfg, &faults, mode);
+    gen_nest(r, &sc, cfg, &faults, mode)
+}
+
 fn slot_ctx(r: &mut Rng, cfg: &SlotCfg, faults: &Faults, mode: Mode) -> SlotCtx {
     let ax = cfg.axis_x();
     let ay = if cfg.kind.is_2d() { cfg.axis_y() } else { vec![0.0, 1.0] };
@@ -655,7 +696,7 @@ pub fn gen_miri_c18(seed: u64, index: u64) -> Generated {
     let want = if index % 2 == 0 { Kind::Probe1 } else { Kind::Probe2 };
     let mut r = Rng::new(seed);
     let r = &mut r;
-    let faults = Faults { oob: false, badbuf: false, strat_err: true, strat_panic: false, crash: false, stall: false, cow: false, badidx: false, mismatch: false, sibling: false };
+    let faults = Faults { oob: false, badbuf: false, strat_err: true, strat_panic: false, crash: false, stall: false, cow: false, badidx: false, mismatch: false, sibling: false, reenter: false, elem_panic: false };
     let cfg = loop {
         let c = gen_slot(r, Mode::C18);
         let lanes: usize = c.trailing().iter().product();
@@ -696,7 +737,7 @@ pub fn gen_miri_c18(seed: u64, index: u64) -> Generated {
                     } else {
                         vec![]
                     };
-                    Op { slot: 0, call: Call::Array { q }, plan, yield_mask: 0, check_acc: r.chance(1, 4) }
+                    Op { slot: 0, call: Call::Array { q }, plan, yield_mask: 0, check_acc: r.chance(1, 4), elem_fault: 0 }
                 })
                 .collect();
             ThreadSpec { ops, crash_on_fault: false }
@@ -706,7 +747,7 @@ pub fn gen_miri_c18(seed: u64, index: u64) -> Generated {
 }
 
 fn gen_hammer(r: &mut Rng, want: Option<Kind>) -> Generated {
-    let faults = Faults { oob: false, badbuf: false, strat_err: false, strat_panic: false, crash: false, stall: false, cow: false, badidx: false, mismatch: false, sibling: true };
+    let faults = Faults { oob: false, badbuf: false, strat_err: false, strat_panic: false, crash: false, stall: false, cow: false, badidx: false, mismatch: false, sibling: true, reenter: false, elem_panic: false };
     let cfg = loop {
         let c = gen_slot(r, Mode::C17Miri);
         if c.elem == Elem::F64 && (want.is_none() || Some(c.kind) == want) {
@@ -760,7 +801,7 @@ fn gen_hammer(r: &mut Rng, want: Option<Kind>) -> Generated {
             }
             _ => Call::IndexLeftOf { x, y },
         };
-        pool.push(Op { slot: 0, call, plan: vec![], yield_mask: 0, check_acc: false });
+        pool.push(Op { slot: 0, call, plan: vec![], yield_mask: 0, check_acc: false, elem_fault: 0 });
     }
     if cfg.storage != Storage::Owned && r.chance(1, 2) {
         // somebody keeps building other interpolators over the same storage meanwhile
@@ -779,7 +820,7 @@ fn gen_hammer(r: &mut Rng, want: Option<Kind>) -> Generated {
             lo_hi_y: (ay[0], ay[ay.len() - 1]),
         };
         let call = gen_sibling(r, &sc);
-        pool.push(Op { slot: 0, call, plan: vec![], yield_mask: 0, check_acc: false });
+        pool.push(Op { slot: 0, call, plan: vec![], yield_mask: 0, check_acc: false, elem_fault: 0 });
     }
     let threads = (0..n_threads)
         .map(|_| ThreadSpec { ops: (0..r.range(10, 18)).map(|_| pool[r.below(pool.len())].clone()).collect(), crash_on_fault: false })
@@ -836,23 +877,7 @@ fn gen_run_inner(seed: u64, mode: Mode) -> Generated {
         .map(|_| {
             let slot = r.below(n_slots);
             let sc = &ctxs[slot];
-            let mut call = gen_call(&mut r, sc, &faults, mode);
-            // buffers of dynamic output type may have a wrong rank only if the data side is dynamic too
-            if let Call::ArrayInto { q, buf } = &mut call {
-                let dynamic_out = q.ty == QTy::QDyn || slots[slot].dimty == DimTy::IxDyn;
-                let exact_nd = q.shape.len() + sc.trailing.len();
-                if !dynamic_out && buf.shape.len() != exact_nd {
-                    let mut s = q.shape.clone();
-                    s.extend_from_slice(&sc.trailing);
-                    *buf = BufSpec { shape: s, lay: Lay::C, exact: true };
-                }
-            }
-            if mode == Mode::C18 {
-                // correctly shaped buffers of every memory layout
-                if let Call::ArrayInto { buf, .. } | Call::InterpInto { buf, .. } = &mut call {
-                    buf.lay = gen_lay(&mut r);
-                }
-            }
+            let call = gen_fixed_call(&mut r, sc, &slots[slot], &faults, mode);
             let n_cb = call.batch_len();
             let mut plan = vec![];
             if sc.probe && mode != Mode::C18 && n_cb > 0 {
@@ -864,15 +889,29 @@ fn gen_run_inner(seed: u64, mode: Mode) -> Generated {
                     let k = r.below(n_cb);
                     plan = vec![Act::Ok; k];
                     plan.push(Act::Panic);
+                } else if faults.reenter && r.chance(1, 3) {
+                    // re-entrancy: callback k calls back into the interpolator (sometimes two do)
+                    let k = r.below(n_cb);
+                    plan = vec![Act::Ok; k];
+                    plan.push(gen_nest(&mut r, sc, &slots[slot], &faults, mode));
+                    if k + 1 < n_cb && r.chance(1, 4) {
+                        plan.push(gen_nest(&mut r, sc, &slots[slot], &faults, mode));
+                    }
                 }
             }
+            let elem_fault = if slots[slot].elem == Elem::Yf && faults.elem_panic && r.chance(1, 4) {
+                // early faults land in the index search / range check, late ones in the evaluation
+                if r.chance(1, 2) { r.range(1, 8) as u32 } else { r.range(1, 90) as u32 }
+            } else {
+                0
+            };
             // buggify: a random subset of callback sites yields, only in some runs
             let yield_mask = if slots[slot].elem == Elem::Yf {
                 // seed of the element-operation yield points of this call (0 = none)
                 if r.chance(7, 8) { r.next_u64() | 1 } else { 0 }
             } else if sc.probe && yields_on { r.next_u64() & r.next_u64() | if r.chance(1, 2) { r.next_u64() } else { 0 } } else { 0 };
             let check_acc = sc.probe && r.chance(1, 2);
-            Op { slot, call, plan, yield_mask, check_acc }
+            Op { slot, call, plan, yield_mask, check_acc, elem_fault }
         })
         .collect();
     if mode == Mode::C18 {
